@@ -46,27 +46,27 @@ type Contract struct {
 	ParamProto map[string]string
 	Pos        string
 	File       string
-	Shared     string // name of the shared contract this was instantiated from
-	GhostSets  []*GhostSet // ghost variables updated when the function returns
-	YieldsArgs []*CExpr    // "yields S(e1, e2)": the subjects of the stream the function/closure produces
-	Subjects   []string    // streams: names of the subjects (bound to the producer's YieldsArgs)
-	Records    []*GhostSet // streams: ghost variables updated at every yield (mirrored at the consumer's next/range)
-	Receives   []*GhostSet // channel protocols: ghost variables updated by the receiver at every successful receive
-	Stops      string      // streams: ghost Bool that becomes !ret after every yield
-	Tracks     []string    // streams: ghost variables reset when a producer starts and then updated only by the producer's own ghost code
-	RetProto   string // the protocol the returned function value must obey (closures implementing a factory protocol)
-	ParamSubj  map[string][]string // "param X follows S(a, b)": names for the subjects of the stream value X
-	SubjTypes  []string            // streams: declared Go types of the subjects ("" = any)
-	Afters     []*AfterHook        // ghost updates performed after calls in the body of this function / closure
-	Carries    map[string]*CarryDecl // "carries x: P(a, b)": the channel variable / parameter / resultN x carries protocol P
+	Shared     string                       // name of the shared contract this was instantiated from
+	GhostSets  []*GhostSet                  // ghost variables updated when the function returns
+	YieldsArgs []*CExpr                     // "yields S(e1, e2)": the subjects of the stream the function/closure produces
+	Subjects   []string                     // streams: names of the subjects (bound to the producer's YieldsArgs)
+	Records    []*GhostSet                  // streams: ghost variables updated at every yield (mirrored at the consumer's next/range)
+	Receives   []*GhostSet                  // channel protocols: ghost variables updated by the receiver at every successful receive
+	Stops      string                       // streams: ghost Bool that becomes !ret after every yield
+	Tracks     []string                     // streams: ghost variables reset when a producer starts and then updated only by the producer's own ghost code
+	RetProto   string                       // the protocol the returned function value must obey (closures implementing a factory protocol)
+	ParamSubj  map[string][]string          // "param X follows S(a, b)": names for the subjects of the stream value X
+	SubjTypes  []string                     // streams: declared Go types of the subjects ("" = any)
+	Afters     []*AfterHook                 // ghost updates performed after calls in the body of this function / closure
+	Carries    map[string]*CarryDecl        // "carries x: P(a, b)": the channel variable / parameter / resultN x carries protocol P
 	RefineMap  map[string]map[string]string // streams: refined stream -> (its ghost variable -> the corresponding one of this stream)
-	Implements string // closures: the protocol this function literal implements
-	ImplInst   string // type instance for $T in that protocol
+	Implements string                       // closures: the protocol this function literal implements
+	ImplInst   string                       // type instance for $T in that protocol
 }
 
 type GhostDecl struct {
-	Name string // "wfail" or "List.view"
-	Type string
+	Name  string // "wfail" or "List.view"
+	Type  string
 	Field bool
 }
 
